@@ -248,7 +248,11 @@ def named_union_package():
             Alias("Nc", Union(P("int32"), P("string"))), Alias("Nd", Union(P("int32"), P("string"))),
             Record("Rn", [("x", N("Na")), ("y", Union(P("int32"), P("string"))), ("z", N("Nc")), ("w", Opt(N("Nd")))]),
             Alias("Ne", Union(("r", N("Rn")), ("l", Vec(N("Na")))))]
-    steps = [("na", N("Na")), ("nb", N("Nb")), ("nm", N("Nm")), ("nn", N("Nn")), ("nc", N("Nc")), ("nd", N("Nd")), ("rn", N("Rn")), ("ne", N("Ne")),
+    from am import Arr
+    defs += [Record("Rk", [("c3", Arr(P("float32"), [2, 3, 4])), ("c4", Arr(P("int16"), [2, 3, 4, 5])), ("n3", Arr(P("uint8"), [("x", 4), ("y", 2), ("z", 3)]))]),
+             Alias("A3", Arr(P("float64"), [3, 1, 2]))]
+    steps = [("rk", N("Rk")), ("a3", N("A3")), ("f3", Arr(P("int32"), [2, 3, 4])), ("f4", am.Stream(Arr(P("float32"), [5, 4, 3, 2]))), ("v3", Vec(Arr(P("int8"), [1, 2, 3]))),
+             ("f5", Arr(P("uint16"), [2, 1, 3, 1, 4]))] + [("na", N("Na")), ("nb", N("Nb")), ("nm", N("Nm")), ("nn", N("Nn")), ("nc", N("Nc")), ("nd", N("Nd")), ("rn", N("Rn")), ("ne", N("Ne")),
              ("anon", Union(P("int32"), P("string"))), ("sna", am.Stream(N("Na"))), ("vne", Vec(N("Ne")))]
     return Package("Nun", defs=defs, protocols=[Protocol("Pn", steps)], dirname="nun")
 
